@@ -206,6 +206,8 @@ CONTRACTS = {
         "receivers": [SA], "inv": True, "params": {}, "modifies": ["self._StatefulAutonomous__state", f"{ST}.ran[*]"],
         "ensures": {"C15.D1 done() leaves no current state": "st is None", "flags untouched": f"forall(s, Ref_{ST}, implies(s is not None, s.ran == old(s.ran)))"},
     },
+    f"{SA}._validate": {"receivers": [SA], "inv": True, "params": {}, "modifies": [], "ensures": {"a hook that does nothing": "True"}},
+    f"{SA}.on_disable": {"receivers": [SA], "inv": True, "params": {}, "modifies": [], "ensures": {"C15.X1 on_disable() itself changes nothing (the next on_enable() re-initialises the run)": "st is old(st)"}},
     f"{SA}.on_enable": {
         "receivers": [SA], "inv": True, "inv_on_raise": False, "params": {}, "raises": "ValueError",
         "requires": {"constructed": "self._StatefulAutonomous__built"},
